@@ -298,10 +298,12 @@ func checkInterp(c interpCase) *vk.Failure {
 	if err != nil {
 		// "Returns an error if fitting fails": allowed; NotAKnotCubic with
 		// exactly 3 knots always ends here (its system has an empty last row).
-		vk.Inconclusive(fmt.Sprintf("fit-error:%s,n=%d", name, minInt(n, 4)))
 		if c.Type == tNotAKnot && n == 3 {
-			return nil
+			// Three points are documented as valid ("panics if len(xs) < 3");
+			// the not-a-knot spline with one interior node is the parabola.
+			return vk.Failf("fit-error/NotAKnotCubic,n=3", "NotAKnotCubic.Fit(xs=%v, ys=%v) with three points, documented as valid, returns the error %q", xs, ys, err)
 		}
+		vk.Inconclusive(fmt.Sprintf("fit-error:%s,n=%d", name, minInt(n, 4)))
 		if c.Knots == kNearDup || c.Knots == kGeometric || c.Knots == kRandom {
 			return nil
 		}
@@ -621,7 +623,7 @@ func checkInterp(c interpCase) *vk.Failure {
 		case tHermite:
 			ok = deg <= 3
 		case tNotAKnot:
-			ok = deg <= 3 && n >= 4
+			ok = (deg <= 3 && n >= 4) || (deg <= 2 && n == 3)
 		case tNatural, tAkima, tFB:
 			ok = deg <= 1
 		case tClamped:
@@ -718,7 +720,7 @@ func TestInterp(t *testing.T) {
 
 type interpPanicCase struct {
 	Type int
-	Kind int // 0 non-increasing, 1 length mismatch, 2 too few
+	Kind int // 0 non-increasing, 1 length mismatch, 2 too few, 3 rejected refit
 	N    int
 	At   int
 	Seed uint64
@@ -798,6 +800,39 @@ func checkInterpPanics(c interpPanicCase) *vk.Failure {
 				return f
 			}
 		}
+	case 3: // a rejected Fit leaves a previously fitted receiver usable and unchanged
+		na := c.N + 3
+		xa := makeKnots(kDyadic, na, r)
+		ya := makeData(dNonMonotone, xa, nil, r)
+		p := newOfType(c.Type)
+		if err := fitOn(p, xa, ya, make([]float64, na)); err != nil {
+			return nil
+		}
+		q := probes(xa)
+		before := record(p, q)
+		nb := c.N
+		if c.At%3 == 0 {
+			nb = minN // two (three) points: the shortest input that reaches the spacing check
+		}
+		if nb < minN {
+			nb = minN
+		}
+		xb := makeKnots(kDyadic, nb, r)
+		yb := makeData(dNonMonotone, xb, nil, r)
+		i := c.At % (nb - 1)
+		xb[i+1] = xb[i]
+		res := vk.Call(func() { fitOn(p, xb, yb, make([]float64, nb)) })
+		if res.Outcome == vk.Returned {
+			return nil // reported by kind 0
+		}
+		var after []float64
+		res = vk.Call(func() { after = record(p, q) })
+		if res.Outcome != vk.Returned {
+			return vk.Failf("rejected-fit-corrupts-receiver/"+name, "%s: fitted with %d points, then Fit with xs=%v panicked as documented (xs[%d]=xs[%d]); afterwards Predict on the receiver ends in %v: %s", name, na, xb, i, i+1, res.Outcome, res.Text)
+		}
+		if !sameSlice(before, after) {
+			return vk.Failf("rejected-fit-changes-receiver/"+name, "%s: fitted with %d points, then Fit with xs=%v panicked as documented; predictions of the receiver changed", name, na, xb)
+		}
 	default: // too few points
 		for n := 0; n < minN; n++ {
 			xs := makeKnots(kDyadic, n, r)
@@ -818,7 +853,7 @@ func TestInterpPanics(t *testing.T) {
 	vk.Run(t, "interp-panics", vk.Opts{Quick: 2000, Thorough: 30000, NoCrumb: true}, func(t *rapid.T) interpPanicCase {
 		return interpPanicCase{
 			Type: rapid.IntRange(0, nTypes-1).Draw(t, "type"),
-			Kind: rapid.IntRange(0, 2).Draw(t, "kind"),
+			Kind: rapid.IntRange(0, 3).Draw(t, "kind"),
 			N:    vk.Dim(t, "n", 2, 12, 3),
 			At:   rapid.IntRange(0, 50).Draw(t, "at"),
 			Seed: rapid.Uint64().Draw(t, "seed"),
